@@ -470,7 +470,7 @@ static void loop_end(int rc) {
     for (auto &sl : W->slots) {
         bool maybe = sl.st == ST_PAUSED || sl.last_non_running_gseq > W->last_real_poll_gseq;
         if (!maybe) continue;
-        sl.pills_pending = 0;
+        if (sl.pills_pending) sl.pill_wildcard = true;   // may or may not still be in the mailbox
         for (auto &o : W->c19_obls) if (o.recipient == sl.idx) o.done = true;
         if (sl.st == ST_PAUSED && sl.last_non_running_gseq <= W->last_real_poll_gseq) sl.pending = 0;   // PAUSED throughout the flush: discarded for sure
         else sl.pending_exact = false;
